@@ -25,7 +25,7 @@ type parked struct {
 // pairScript drives a pair of real sessions through one seeded script inside a synctest bubble.
 type pairScript struct {
 	c        *ctx
-	rg       *pairRig
+	rg       *seshPair
 	sp       bool
 	inact    time.Duration
 	written  [2]map[uint32][]byte // bytes accepted by Write on stream id, per writing side
@@ -446,7 +446,7 @@ func newPairScript(c *ctx, method byte, nconn int, sp bool, inact time.Duration,
 	var key [32]byte
 	copy(key[:], c.r.bytes(32))
 	ps := &pairScript{c: c, sp: sp, inact: inact, tag: tag}
-	ps.rg = newPairRig(method, key, nconn, sp, false, inact)
+	ps.rg = newSeshPair(method, key, nconn, sp, false, inact)
 	for i := 0; i < 2; i++ {
 		ps.written[i] = map[uint32][]byte{}
 		ps.readb[i] = map[uint32][]byte{}
